@@ -12,6 +12,10 @@ CHECKS = {
    note="Trusts the harness generator's construction of side-effect-free failing inputs and the virtual clock (1 tick per evaluated node) standing for real deadlines; error wording is not compared.",
    tech="deterministic simulation: seeded session histories + injected cancellation/allocation/writer faults, differential against the fault-free history of the same real code"),
 
+ "C04": dict(cat="exploration", ref="5.2",
+   text="Seeded search over REPL input sequences (definitions, leaf redefinitions, repeated and verbatim re-submitted calls, closures, outer reads/writes, prints, rand/time, cancellations inside printing calls) executed on the real interpreter with the cache on and, through hook H1, off, under identical rand/time streams; per input the output bytes, value, outcome class and rand/time call counts must be identical, and final globals must agree. Recorded design-level staleness findings are confined to fixed probe histories (KNOWN-FINDING).",
+   note="log() is not generated (documented as uncaptured); sleep() being memoizable is not judged; in-place mutation of a large container returned by a cached call is attributed to C06 and kept out of this generator.",
+   tech="deterministic simulation: seeded session histories with virtual rand/time streams and injected cancellations, differential between cache enabled/disabled (hook) of the same real code"),
  "C05": dict(cat="exploration", ref="5.3",
    text="Seeded search over multi-input session histories plus a deterministic sweep (parameter count 0..12 x loop depth 0..10 x exit kind): the same concrete history runs on the real interpreter with registers on and off and every input must give identical output/value/outcome class and identical final globals; deadline faults are addressed by the k-th execution of a planted marker so they hit the same program point in both modes. Recorded (not repaired) divergences about loop-variable scoping are re-observed by fixed probe histories and printed as KNOWN-FINDING.",
    note="Generated programs avoid type()/info; loop variables get unique names in the random batch so the recorded loop-variable-scoping findings stay confined to their probes; error wording is not compared.",
